@@ -213,6 +213,9 @@ func runCheck(lockMode bool, repo, verif, prop, tier, only, dump string, useCach
 			continue
 		}
 		for _, o := range r.fv.obls {
+			if o.Result != nil && o.Result.Solver == "static-dataflow" {
+				continue
+			}
 			qs := buildQueries(prelude, r.fv, o, []int{1, 2, 3})
 			q := qs[len(qs)-1]
 			jobs = append(jobs, &job{o: o, query: q, pruned: qs[:len(qs)-1]})
@@ -238,6 +241,9 @@ func runCheck(lockMode bool, repo, verif, prop, tier, only, dump string, useCach
 
 	exit := 0
 	for _, p := range props {
+		if fo := eng.frameObligations(p); len(fo) > 0 {
+			results = append(results, &fres{c: &Contract{FuncName: "frames(" + p + ")", Pkg: repoModule + "/planner", Props: []string{p}}, fn: nil, fv: &FV{eng: eng, obls: fo, unmodelled: map[string]bool{}, assumptionsUsed: map[string]bool{"frame obligations are decided by a conservative syntactic dataflow over go/ssa (loads/stores through FieldAddr, followed through repo callees and closures); hash functions (SHA-1) and the selection-set formatter are assumed injective": true}}})
+		}
 		if rc := report(eng, p, tier, seed, verif, results, missing, specErrs, lock, known, pf, time.Since(t0).Seconds(), loadS, genS, solveS, evidenceOut, showAll, prelude); rc != 0 {
 			exit = rc
 		}
